@@ -182,8 +182,8 @@ pub fn execute_scenario(sc: &Scenario) -> Outcome {
 }
 
 const SLOTS: u64 = 72;
-const HISTORIES_QUICK: u64 = 60;
-const HISTORIES_THOROUGH: u64 = 1500;
+const HISTORIES_QUICK: u64 = 600;
+const HISTORIES_THOROUGH: u64 = 20000;
 
 fn history(seed: u64, h: u64) -> Scenario {
     let mut rng = rng_from(mix(mix(seed, 0xC07), h));
@@ -237,8 +237,8 @@ impl Check for C07 {
     }
     fn budget(&self, tier: Tier) -> Budget {
         match tier {
-            Tier::Quick => Budget { wall_secs: 45, max_cases: SLOTS * HISTORIES_QUICK + 1500, checkpoint_every: 64, workers: 16 },
-            Tier::Thorough => Budget { wall_secs: 420, max_cases: SLOTS * HISTORIES_THOROUGH + 100_000, checkpoint_every: 64, workers: 16 },
+            Tier::Quick => Budget { wall_secs: 45, max_cases: SLOTS * HISTORIES_QUICK + 20_000, checkpoint_every: 64, workers: 16 },
+            Tier::Thorough => Budget { wall_secs: 900, max_cases: SLOTS * HISTORIES_THOROUGH + 1_000_000, checkpoint_every: 64, workers: 16 },
         }
     }
     fn total_cases(&self, tier: Tier) -> Option<u64> {
